@@ -57,3 +57,20 @@ Definition html_timeout_status : list N := [78; 79; 84; 69; 82; 77]%N.   (* NOTE
 Definition html_nonzero : gflag * list N * list N := (GF_XPASSED, [88; 80; 65; 83; 83]%N, [70; 65; 73; 76]%N).   (* peek XPASSED ? XPASS : FAIL *)
 Definition html_zero_chain : list (gflag * list N) := [(GF_XFAILED, [88; 70; 65; 73; 76]%N); (GF_SKIPPED, [83; 75; 73; 80]%N)].   (* XFAILED -> XFAIL, SKIPPED -> SKIP *)
 Definition html_zero_default : list N := [80; 65; 83; 83]%N.   (* PASS *)
+
+(* report.c regress_report_skip_step: a regress row with exit 0 gets a section iff regress_log_peek with these flags is > 0 *)
+Definition report_peek_flags : list gflag := [GF_SKIPPED; GF_XFAILED].
+(* report.c regress_report_step_log: flags given to regress_log_parse: always, and in addition unless the suite is quiet *)
+Definition report_log_flags : list gflag := [GF_FAILED; GF_XPASSED].
+Definition report_log_flags_unless_quiet : list gflag := [GF_SKIPPED; GF_XFAILED].
+
+(* regress_log_trim: initial xbeg / xend; the leading trace lines are passed over; on a trace line xend is set to the
+   length collected so far only while it is 0 (true) or every time (false); every other line resets it to 0;
+   the byte appended after every kept line; the final copy stops at xend when xend is not 0 *)
+Definition trim_xbeg_init : nat := 1.
+Definition trim_xend_init : nat := 0.
+Definition trim_skip_lead : bool := true.
+Definition trim_xend_set_once : bool := true.
+Definition trim_xend_reset : bool := true.
+Definition trim_line_end : N := 10%N.
+Definition trim_cut_at_xend : bool := true.
